@@ -65,3 +65,109 @@ Proof.
   - intros H u Hu. specialize (H u (proj2 (In_upto u n) Hu)). cbn [ir_holds cop_holds] in H. rewrite E in H. lia.
   - intros H u Hu. apply In_upto in Hu. cbn [ir_holds cop_holds]. rewrite E. specialize (H u Hu). lia.
 Qed.
+
+(* ---------- T2 and uniqueness ---------- *)
+Lemma combs_incl {A} : forall (l : list A) k c, In c (combs l k) -> forall y, In y c -> In y l.
+Proof.
+  induction l as [|x t IH]; intros k c Hc y Hy.
+  - destruct k; cbn in Hc; [destruct Hc as [<-|[]]; destruct Hy|destruct Hc].
+  - destruct k as [|k]; cbn [combs] in Hc; [destruct Hc as [<-|[]]; destruct Hy|].
+    apply in_app_or in Hc as [Hc|Hc].
+    + apply in_map_iff in Hc as [c' [<- Hc']]. destruct Hy as [<-|Hy]; [now left|right; eapply IH; eauto].
+    + right. eapply IH; eauto.
+Qed.
+Lemma combs_NoDup {A} : forall (l : list A) k, NoDup l -> NoDup (combs l k).
+Proof.
+  induction l as [|x t IH]; intros k Hnd.
+  - destruct k; cbn; [constructor; [intros []|constructor]|constructor].
+  - inversion Hnd as [|? ? Hx Ht]; subst. destruct k as [|k]; cbn [combs]; [constructor; [intros []|constructor]|].
+    apply NoDup_app_intro.
+    + apply NoDup_map_inj_in; [intros; congruence|]. now apply IH.
+    + now apply IH.
+    + intros c H1 H2. apply in_map_iff in H1 as [c' [<- _]]. apply Hx. apply (combs_incl t (S k) _ H2). now left.
+Qed.
+Lemma combs_length {A} : forall (l : list A) k c, In c (combs l k) -> length c = k.
+Proof.
+  induction l as [|x t IH]; intros k c Hc.
+  - destruct k; cbn in Hc; [destruct Hc as [<-|[]]; reflexivity|destruct Hc].
+  - destruct k as [|k]; cbn [combs] in Hc; [destruct Hc as [<-|[]]; reflexivity|].
+    apply in_app_or in Hc as [Hc|Hc].
+    + apply in_map_iff in Hc as [c' [<- Hc']]. cbn. f_equal. eapply IH; eauto.
+    + eapply IH; eauto.
+Qed.
+Lemma combs_elem_NoDup {A} : forall (l : list A) k c, NoDup l -> In c (combs l k) -> NoDup c.
+Proof.
+  induction l as [|x t IH]; intros k c Hnd Hc.
+  - destruct k; cbn in Hc; [destruct Hc as [<-|[]]; constructor|destruct Hc].
+  - inversion Hnd as [|? ? Hx Ht]; subst. destruct k as [|k]; cbn [combs] in Hc; [destruct Hc as [<-|[]]; constructor|].
+    apply in_app_or in Hc as [Hc|Hc].
+    + apply in_map_iff in Hc as [c' [<- Hc']]. constructor; [|eapply IH; eauto].
+      intros Hin. apply Hx. eapply combs_incl; eauto.
+    + eapply IH; eauto.
+Qed.
+
+Lemma count_blocks_NoDup M p : NoDup (count_blocks M p).
+Proof. apply combs_NoDup, NoDup_upto. Qed.
+
+Theorem count_T2 M p (blk : list Z -> bool) : partition_of M (filter blk (count_blocks M p)) ->
+  exists a, irs_hold a (count_ir M p) = true /\ count_sel a M p = filter blk (count_blocks M p).
+Proof.
+  intros HP. exists (enc (count_tab M p) blk).
+  assert (E : count_sel (enc (count_tab M p) blk) M p = filter blk (count_blocks M p)).
+  { unfold count_sel. rewrite sel_enc by apply number_NoDup_snd. unfold count_tab. now rewrite number_fst. }
+  split; [|exact E]. apply count_T1. now rewrite E.
+Qed.
+
+Theorem count_unique a b M p :
+  (forall S, In S (count_sel a M p) <-> In S (count_sel b M p)) ->
+  forall v, 1 <= v <= count_numvar M p -> a v = b v.
+Proof.
+  intros H v Hv. unfold count_numvar in Hv.
+  destruct (number_surj (count_blocks M p) 0 v ltac:(lia)) as [x Hx].
+  assert (NoDup (map fst (count_tab M p))) as Hnd by (unfold count_tab; rewrite number_fst; apply count_blocks_NoDup).
+  apply (sel_inj a b (count_tab M p) Hnd H (x, v) Hx).
+Qed.
+
+Lemma count_sel_blocks a M p : incl (count_sel a M p) (count_blocks M p).
+Proof.
+  intros x Hx. apply In_sel in Hx as [v [Hv _]]. unfold count_tab in Hv.
+  rewrite <- (number_fst (count_blocks M p) 0). change x with (fst (x, v)). now apply in_map.
+Qed.
+
+(* ---------- matching ---------- *)
+Lemma edge_lt_trans e f g : edge_lt e f = true -> edge_lt f g = true -> edge_lt e g = true.
+Proof. unfold edge_lt. lia. Qed.
+Lemma edges_increasing_head : forall l x, edges_increasing (x :: l) = true -> forall y, In y l -> edge_lt x y = true.
+Proof.
+  induction l as [|z t IH]; intros x H y Hy; [destruct Hy|]. cbn [edges_increasing] in H.
+  apply andb_true_iff in H as [Hxz Hr]. destruct Hy as [<-|Hy]; [assumption|].
+  apply (edge_lt_trans x z y Hxz). now apply IH.
+Qed.
+Lemma edges_increasing_NoDup : forall l, edges_increasing l = true -> NoDup l.
+Proof.
+  induction l as [|x t IH]; intros H; [constructor|]. constructor.
+  - intros Hin. pose proof (edges_increasing_head t x H x Hin) as F. unfold edge_lt in F. lia.
+  - apply IH. cbn [edges_increasing] in H. destruct t; [reflexivity|]. now apply andb_true_iff in H as [_ H].
+Qed.
+Lemma graph_wf_NoDup n es : graph_wf n es = true -> NoDup es.
+Proof. unfold graph_wf. intros H. apply andb_true_iff in H as [_ H]. now apply edges_increasing_NoDup. Qed.
+
+Theorem matching_T2 n es (obj : Z * Z -> bool) : graph_wf n es = true ->
+  perfect_matching n (filter obj es) ->
+  exists a, irs_hold a (matching_ir n es) = true /\ matching_sel a es = filter obj es.
+Proof.
+  intros Hwf HP. exists (enc (matching_tab es) obj).
+  assert (E : matching_sel (enc (matching_tab es) obj) es = filter obj es).
+  { unfold matching_sel. rewrite sel_enc by apply number_NoDup_snd. unfold matching_tab. now rewrite number_fst. }
+  split; [|exact E]. apply matching_T1; [assumption|]. now rewrite E.
+Qed.
+
+Theorem matching_unique a b n es : graph_wf n es = true ->
+  (forall e, In e (matching_sel a es) <-> In e (matching_sel b es)) ->
+  forall v, 1 <= v <= matching_numvar es -> a v = b v.
+Proof.
+  intros Hwf H v Hv. unfold matching_numvar in Hv.
+  destruct (number_surj es 0 v ltac:(lia)) as [x Hx].
+  assert (NoDup (map fst (matching_tab es))) as Hnd by (unfold matching_tab; rewrite number_fst; now apply (graph_wf_NoDup n)).
+  apply (sel_inj a b (matching_tab es) Hnd H (x, v) Hx).
+Qed.
